@@ -307,7 +307,11 @@ class NPShim:
             return a
         return _np.zeros(shape, dtype)
 
+    new_buffer = None      # callable(size) -> owning SymArr, set by the harness
+
     def empty(self, shape, dtype=None):
+        if isinstance(shape, Sym):
+            return self.new_buffer(shape)
         return _np.empty(shape, dtype=object)
 
     def prod(self, xs, axis=None):
